@@ -491,6 +491,40 @@ func init() {
 				}
 			}
 		}
+		// long histories of few operations (one client: non-DNS and DNS datagrams, a DNS reply,
+		// pauses of 16 s and of more than the timeout)
+		{
+			T := 300 * time.Second
+			dm := []udpx.Op{{K: "S", C: 0, Key: 0, T: 1, N: 30}, {K: "S", C: 0, Key: 0, T: 0, N: 30}, {K: "R", C: 0, T: 0, N: 50}, {K: "A", D: 16 * time.Second}, {K: "A", D: T + time.Second}}
+			dd := 6
+			if ctx.Tier == "thorough" {
+				dd = 8
+			}
+			dtotal := int64(1)
+			for i := 0; i < dd; i++ {
+				dtotal *= int64(len(dm))
+			}
+			for code := int64(0); code < dtotal; code++ {
+				idx++
+				if !ctx.Mine(idx) {
+					continue
+				}
+				if ctx.Expired() {
+					ctx.Incomplete("nat-life-deep", "nat-life-deep: time cap hit at sequence %d of %d", code, dtotal)
+					break
+				}
+				ops := make([]udpx.Op, dd)
+				c := code
+				for i := 0; i < dd; i++ {
+					ops[i] = dm[c%int64(len(dm))]
+					c /= int64(len(dm))
+				}
+				in := input{Timeout: T, Ops: ops}
+				sc := scenario(in)
+				sc.Name = "nat-life-deep"
+				ctx.RunCase("nat-life-deep", "Q", sc, in, nil)
+			}
+		}
 		// three datagrams of one client with gaps g1, g2 < timeout, then a reply just before the
 		// promise of the third runs out: the association is alive all the time
 		for _, T := range []time.Duration{10 * time.Second, 300 * time.Second} {
@@ -534,7 +568,7 @@ func init() {
 			return []*engine.Finding{{Sig: "BROKEN:bad-input", Msg: err.Error()}}
 		}
 		rp.Choices = nil
-		if rp.Unit == "nat-window" || rp.Unit == "nat-shared-shutdown" || rp.Unit == "nat-listener-dropped" || rp.Unit == "nat-gaps" {
+		if rp.Unit == "nat-window" || rp.Unit == "nat-shared-shutdown" || rp.Unit == "nat-listener-dropped" || rp.Unit == "nat-gaps" || rp.Unit == "nat-life-deep" {
 			return engine.ReplayCase(rp.Unit, scenario(in), rp)
 		}
 		return engine.ReplayCase("nat-life", scenario(in), rp)
